@@ -12,6 +12,7 @@ import (
 	"bufio"
 	"encoding/base64"
 	"encoding/json"
+	"fmt"
 	"os"
 	"path/filepath"
 	"sort"
@@ -45,6 +46,7 @@ func cmdSuite(args []string) {
 	var order []string
 	procs := map[string]bool{}
 	nrec, mutated := 0, 0
+	pairs := map[[2]string]bool{}
 	for _, f := range files {
 		fh, err := os.Open(f)
 		if err != nil {
@@ -59,6 +61,7 @@ func cmdSuite(args []string) {
 			}
 			nrec++
 			procs[filepath.Base(r.Proc)] = true
+			pairs[[2]string{r.Lint, fmt.Sprint(r.St)}] = true // (whatever object it was: a status is what the lint reported)
 			if r.Mutated {
 				mutated++ // the test changed the parsed object before linting it: its encoding is not what was judged
 				continue
@@ -173,6 +176,14 @@ func cmdSuite(args []string) {
 		}
 	}
 	w.Close()
+	var sl []string
+	for p := range pairs {
+		if _, ok := index[p[0]]; ok {
+			sl = append(sl, p[0]+"|"+p[1])
+		}
+	}
+	sort.Strings(sl)
+	ev.WriteJSON(out("statuses.json"), sl)
 	var ur []string
 	for n := range unregistered {
 		ur = append(ur, n)
